@@ -147,14 +147,15 @@ def fp_diff(a, b):
 
 
 # ---------------------------------------------------------------- the calls
-def one_call(v, text):
-    """the observable result of the full API chain for one text (exceptions are results too)"""
+def one_call(v, text, path=None):
+    """the observable result of the full API chain for one text (exceptions are results too); `path` names a file that exists on disk
+    with another content and was parsed with cache=True earlier in this process - a non-caching parse must not care"""
     import parso
     from parso.python.tokenize import tokenize
     g = parso.load_grammar(version=v)
     out = {}
     try:
-        m = g.parse(text)
+        m = g.parse(text) if path is None else g.parse(text, path=path)
         out['tree'] = hash(tuple(tree_sig(m)))
         out['nodes'] = len(tree_sig(m))
     except Exception as e:
@@ -174,7 +175,7 @@ def one_call(v, text):
     return out
 
 
-def make_batch(rng, files, n, maxlen=10 ** 9):
+def make_batch(rng, files, n, maxlen=10 ** 9, paths=None):
     texts = []
     for i in range(n):
         r = rng.random()
@@ -187,8 +188,26 @@ def make_batch(rng, files, n, maxlen=10 ** 9):
                         for k in range(rng.randint(1, 8)))
         else:
             t = G.corpus_slice(rng, files, maxlines=40, inject=(0, 1))
-        texts.append((rng.choice(harness.VERSIONS), t[:maxlen]))
+        texts.append((rng.choice(harness.VERSIONS), t[:maxlen], rng.choice(paths) if paths and rng.random() < .15 else None))
     return texts
+
+
+def cached_files():
+    """three files on disk, parsed with cache=True through every grammar (memory entries + pickles in a private directory)"""
+    import parso
+    import tempfile
+    root = tempfile.mkdtemp(prefix='vmon18-')
+    paths = []
+    for k, content in enumerate(['import os\n\n\ndef cached_function(a):\n    return a\n', 'class Cached:\n    x = 1\n', 'cached = [\n    1,\n]\n']):
+        p = os.path.join(root, 'm%d.py' % k)
+        with open(p, 'w') as f:
+            f.write(content)
+        paths.append(p)
+    for v in harness.VERSIONS:
+        g = parso.load_grammar(version=v)
+        for p in paths:
+            g.parse(path=p, cache=True, cache_path=os.path.join(root, 'cache'))
+    return root, paths
 
 
 class Interleave:
@@ -297,13 +316,14 @@ def run_shard(spec, ctx):
         il.start()
     f_filters0 = list(warnings.filters)
     fp_prev = None
+    croot, cpaths = cached_files()
     try:
         for b in range(spec['batches']):
             if ctx.out_of_time():
                 ctx.count('stopped_by_time_budget')
                 break
             n = rng.choice(spec.get('sizes', [16, 32, 64]))
-            texts = make_batch(rng, files, n, spec.get('maxlen', 10 ** 9))
+            texts = make_batch(rng, files, n, spec.get('maxlen', 10 ** 9), cpaths)
             nthreads = rng.choice(spec.get('threads', [2, 3, 4, 8]))
             before = il.n_switch
             conc = run_batch_threads(texts, nthreads)
@@ -322,6 +342,16 @@ def run_shard(spec, ctx):
             for i in order:
                 seq[i] = one_call(*texts[i])
             w = {'texts': texts, 'threads': nthreads, 'cold': b == 0}
+            for i in range(n):
+                if texts[i][2] is not None:
+                    # the path of a file that is in the cache (memory and disk) with another content must not change a non-caching parse
+                    ctx.count('non_caching_parses_with_a_cached_path')
+                    plain = one_call(texts[i][0], texts[i][1])
+                    if _norm(plain) != _norm(seq[i]):
+                        keys = [k for k in set(plain) | set(seq[i]) if _norm(plain).get(k) != _norm(seq[i]).get(k)]
+                        ctx.violation('path_option_changes_result', 'call %d (%s, %r...): parse(code, path=<cached file>) differs from parse(code) in %s' % (
+                            i, texts[i][0], texts[i][1][:40], keys), {'texts': [texts[i]], 'threads': 1}, index=i, keys=keys)
+                        break
             for i in range(n):
                 if _norm(conc[i]) != _norm(seq[i]):
                     keys = [k for k in set(conc[i]) | set(seq[i]) if _norm(conc[i]).get(k) != _norm(seq[i]).get(k)]
@@ -371,10 +401,17 @@ def run_shard(spec, ctx):
             ctx.sample({'threads_switched_between': sorted('%s -> %s' % s for s in il.switches)[:8]})
     finally:
         il.stop()
+        import shutil
+        shutil.rmtree(croot, ignore_errors=True)
 
 
 def replay(w, ctx):
-    texts = [tuple(t) for t in w['texts']]
+    croot, cpaths = cached_files()
+    texts = [(t[0], t[1], (cpaths[0] if len(t) > 2 and t[2] else None)) for t in w['texts']]
+    for v, t, p in texts:
+        if p is not None and _norm(one_call(v, t, p)) != _norm(one_call(v, t)):
+            ctx.violation('path_option_changes_result', 'parse(code, path=<cached file>) differs from parse(code) on replay', w)
+            return
     for rep in range(20):
         conc = run_batch_threads(texts, w.get('threads', 4))
         seq = [one_call(*t) for t in texts]
@@ -395,4 +432,5 @@ def shards(tier, seed):
 
 def floors(tier):
     return {'evaluations': 700, 'batches_with_interleaving': 30, 'thread_switches_inside_parso': 2000, 'fingerprints': 30,
-            'fresh_process_replays': 15, 'set:distinct_function_switches': 100}
+            'fresh_process_replays': 15, 'set:distinct_function_switches': 100,
+            'non_caching_parses_with_a_cached_path': 60}
